@@ -4,6 +4,7 @@ Everything here is generic over the fact base written by extractor/ (rustc MIR a
 mir-opt-level=0).  Nothing in this module knows a property; the rule modules do.
 """
 import json
+import os
 import re
 import sys
 from collections import defaultdict, deque
@@ -644,6 +645,9 @@ class Facts:
             raise AnchorMissing("function %s not found" % key)
         if len(fs) > 1:
             raise AnchorMissing("function key %s is ambiguous (%d bodies)" % (key, len(fs)))
+        if os.environ.get("MAHF_FN_LOG"):
+            with open(os.environ["MAHF_FN_LOG"], "a") as fh:
+                fh.write("%s\t%s\t%s\n" % (key, fs[0].vis, fs[0].kind))
         return fs[0]
 
     def fn_opt(self, key):
